@@ -836,6 +836,43 @@ def check_constructor_keywords_not_fed_from_other_packets(ctx, rule='R6-fresh-va
         ctx.holds(rule, init, 'Packet.__init__ adds nothing to its keyword dict', 'every value a field finds there was given by the caller', init.node.lineno)
 
 
+def check_no_shared_results(ctx, funcs, rule='R6-fresh-values'):
+    """Round 8.  (i) a function of the package whose results are memoised (functools.lru_cache /
+    cache) hands the same object to every caller: allowed only for functions that do not build
+    packets / fields; (ii) a shallow copy (copy.copy) of an object kept on a shared field shares
+    everything that object refers to -- nested packets, lists -- with every packet made from it"""
+    repo = ctx.repo
+    n = 0
+    for fi in repo.functions.values():
+        if not isinstance(fi.node, ast.FunctionDef):
+            continue
+        for d in fi.node.decorator_list:
+            t = unparse(d)
+            if any(k in t for k in ('lru_cache', 'functools.cache', 'cached_property')) or t in ('cache',):
+                n += 1
+                builds = [x for x in ast.walk(fi.node) if isinstance(x, ast.Call) and ((isinstance(x.func, ast.Name) and (x.func.id in repo.classes or x.func.id[:1].isupper() or x.func.id in ('pkt_class', 'cls')))
+                                                                                        or (isinstance(x.func, ast.Attribute) and x.func.attr in ('clone', 'unpack', 'deepcopy')))]
+                rets = [r for r in ast.walk(fi.node) if isinstance(r, ast.Return) and r.value is not None]
+                st = '@%s def %s' % (t[:40], fi.qual)
+                if builds and rets:
+                    ctx.violation(rule, fi, st, 'the results of this function are memoised, and it builds an object (%s): every caller gets the same mutable object, so what one caller sets on it shows up for the others' % unparse(builds[0])[:50], fi.node.lineno, witness=True)
+                else:
+                    ctx.undecided(rule, fi, st, 'memoised results: cannot see that what is returned is immutable', fi.node.lineno)
+    for fi in funcs:
+        for x in ast.walk(fi.node):
+            if isinstance(x, ast.Call) and call_name(x) in ('copy.copy', 'copy') and len(x.args) == 1:
+                a = x.args[0]
+                base = a
+                while isinstance(base, (ast.Attribute, ast.Subscript)):
+                    base = base.value
+                if isinstance(base, ast.Name) and base.id == 'self' and isinstance(a, ast.Attribute) and fi.cls is not None and repo.is_subclass(fi.cls, 'Field'):
+                    n += 1
+                    ctx.violation(rule, fi, '%s: %s' % (fi.qual, unparse(x)[:60]), 'a shallow copy of an object kept on the shared field: the copy has its own slots, but every slot the parser does not overwrite still refers to the same nested packets / lists in every packet made this way', x.lineno, witness=True)
+    ctx.unit('memoised_or_shallow_copied', n)
+    if not n:
+        ctx.holds(rule, ('bisturi', '<package>'), 'no memoised function, no shallow copy of a shared object', 'results are built per call', 0)
+
+
 def check(ctx):
     from ..model import check_strategies_read_the_name_at_call_time
     check_strategies_read_the_name_at_call_time(ctx, 'R5-name-at-call-time')
@@ -846,6 +883,7 @@ def check(ctx):
     check_pack_purity(ctx)
     check_lists_only_iterated(ctx, funcs)
     check_constructor_keywords_not_fed_from_other_packets(ctx)
+    check_no_shared_results(ctx, funcs)
     # the generated module is shared by same-named classes: nothing of one class lives in it
     from .c15 import check_module_namespace
     check_module_namespace(ctx)
